@@ -19,7 +19,7 @@ from __future__ import annotations
 import ast
 
 from ..cfg import CFG
-from ..core import (AnalysisError, assignments, call_name, dotted, names_in, provenance,
+from ..core import (AnalysisError, assignments, call_name, doc_sorted, dotted, names_in, provenance,
                     short, walk_no_nested)
 from ..util import calls_named, first_arg, has_call, norm, stored_paths, struct_fields
 
@@ -362,7 +362,12 @@ def _record_subst(fn, e):
                         return m[n.attr]
             return self.generic_visit(n)
     import copy
-    return norm(T().visit(copy.deepcopy(e)))
+    from ..canon import Env
+
+    out = T().visit(copy.deepcopy(e))
+    # naming locals (`key_len = len(key)`) dissolve; the record / header locals stay names
+    keep = {n for n, vals in asg.items() for v in vals if isinstance(v, ast.Call) and (call_name(v) == "UKVRecord" or _is_pack(v))}
+    return norm(Env(fn).expand(out, keep=keep))
 
 
 def r4_block_header(chk, put, mapb, get):
@@ -384,10 +389,10 @@ def r4_block_header(chk, put, mapb, get):
     recs = calls_named(put.node, {"UKVRecord"})
     chk.require(len(recs) >= 1, "put: no UKVRecord construction")
     for r in recs:
-        ra = [norm(x) for x in r.args] + [f"{k.arg}={norm(k.value)}" for k in r.keywords]
+        ra = [_record_subst(put.node, x) for x in r.args] + [f"{k.arg}={_record_subst(put.node, k.value)}" for k in r.keywords]
         chk.decide(ra == ["self._eof", "len(key)", "len(value)"], "C02.R4", f"{put.key}:record", put.where(r), f"UKVRecord{tuple(ra)}",
                    f"put indexes the record as UKVRecord({', '.join(ra)}); expected (self._eof, len(key), len(value))")
-    ws = sorted(calls_named(put.node, {"self._stream.write", "self._pack_write"}), key=lambda x: (x.lineno, x.col_offset))
+    ws = doc_sorted(put.node, calls_named(put.node, {"self._stream.write", "self._pack_write"}))
     order = []
     asg = assignments(put.node)
     for w in ws:
@@ -484,16 +489,15 @@ def r5_shortcut(chk, mapb):
     if not early:
         chk.ok("C02.R5", key, mapb.where(), "no early return: the index is always rebuilt")
         return
+    from ..canon import path_conditions
+
     for r in early:
-        guards = [g for g in ast.walk(mapb.node) if isinstance(g, ast.If) and any(x is r for b in g.body for x in ast.walk(b))]
         good = False
-        for g in guards:
-            conj = g.test.values if isinstance(g.test, ast.BoolOp) and isinstance(g.test.op, ast.And) else [g.test]
-            for t in conj:
-                if (isinstance(t, ast.Compare) and len(t.ops) == 1 and isinstance(t.ops[0], ast.Eq)):
-                    sides = [t.left, t.comparators[0]]
-                    if any(norm(x) == "self._eof" for x in sides) and any(_mentions_fresh_size(x, fresh) for x in sides):
-                        good = True
+        for t in path_conditions(mapb.node, r):
+            if (isinstance(t, ast.Compare) and len(t.ops) == 1 and isinstance(t.ops[0], ast.Eq)):
+                sides = [t.left, t.comparators[0]]
+                if any(norm(x) == "self._eof" for x in sides) and any(_mentions_fresh_size(x, fresh) for x in sides):
+                    good = True
         if not good:
             chk.fail("C02.R5", key, mapb.where(r),
                      "map_blocks returns the cached table of contents without comparing the cached _eof with the "
